@@ -366,7 +366,8 @@ def main():
                             for b in st['batches']]
                 except Exception:
                     pass
-                if req.get('execute', True):
+                if req.get('execute', True) and (result['required'] or
+                                                 not req.get('only_if_required')):
                     rec.emit('evolve_call')
                     evolver.evolve()
                     rec.emit('evolve_return')
